@@ -149,9 +149,8 @@ class ElectronicControlUnit:
         :param callback:
             Function to call when message is received.
         """
-        for dic in self._subscribers:
-            if dic['cb'] == callback:
-                self._subscribers.remove(dic)
+        # filter in place: removing while iterating skipped every second duplicate
+        self._subscribers[:] = [dic for dic in self._subscribers if dic['cb'] != callback]
 
 
     def add_ca(self, **kwargs):
